@@ -19,8 +19,10 @@ var errAllExempt = map[string]string{
 	"(*ExpressionOptimizer).tryOptimizeBinaryOpExecute|Expression.Execute":       "constant folding attempt: an evaluation error means `do not fold`, the original node is kept (FOLDERR checks the success edge)",
 	"(*ExpressionOptimizer).tryOptimizeBinaryOpExecute|(*BinaryOpExpr).Execute":  "constant folding attempt: an evaluation error means `do not fold`, the original node is kept (FOLDERR checks the success edge)",
 	"(*ExpressionOptimizer).tryOptimizeFunctionCall|(*FunctionCallExpr).Execute": "constant folding attempt: an evaluation error means `do not fold`, the original node is kept (FOLDERR checks the success edge)",
-	"(*BinaryOpExpr).execStringIn|execStringCompare#2":                           "IN over a function result: an element that cannot be compared counts as `no match` (row mode is more lenient than batch mode, which C03 allows)",
-	"(*BinaryOpExpr).execNumberIn|execNumberCompare#2":                           "IN over a function result: an element that cannot be compared counts as `no match` (row mode is more lenient than batch mode, which C03 allows)",
+	"(*BinaryOpExpr).execStringIn|execStringCompare#2":                           "IN over a function result: an element that cannot be compared counts as `no match`",
+	"(*BinaryOpExpr).execInBatch|execNumberCompare#2":                            "IN over a function result, batch twin: the same `no match` as in row mode (TWINERR keeps the two alike)",
+	"(*BinaryOpExpr).execInBatch|execStringCompare#2":                            "IN over a function result, batch twin: the same `no match` as in row mode (TWINERR keeps the two alike)",
+	"(*BinaryOpExpr).execNumberIn|execNumberCompare#2":                           "IN over a function result: an element that cannot be compared counts as `no match`",
 }
 
 // neverFails: every return of fn has the constant nil as its error result.
